@@ -6,6 +6,7 @@ question on the decoded tree (Spec/Access.lean).
 import JsonbModel.Proofs.AccessRefine
 import JsonbModel.Proofs.AccessDocs
 import JsonbModel.Proofs.AccessRefine5
+import JsonbModel.Proofs.AccessCasts
 
 namespace Jsonb.Props
 open Jsonb JV
@@ -85,6 +86,36 @@ theorem C05_subvalues_canonical_keypath (v : JV) (h : goodTop v = true) (path : 
     (hb : Fn.getByKeypath (encodeSpec v) path = .ok (some bs)) :
     ∃ w, goodTop w = true ∧ bs = encodeSpec w ∧ (path ≠ [] → good w = true) :=
   getByKeypath_doc v h path bs hb
+
+/-! ### the casts (`Spec.toBool / toI64 / toU64 / toF64 / toStr`, `Spec.asI64 / asU64 / asF64`, `Spec.is*` are
+written on the tree in Proofs/AccessCasts.lean: the number view if present, else a bool as 1 / 0, else
+the string through Rust's `str::parse` (modelled: `Fn.parseI64 / parseU64 / parseF64`), else `InvalidCast`) -/
+
+theorem C05_as_i64 (v : JV) (h : goodTop v = true) : Fn.asI64 (encodeSpec v) = .ok (Spec.asI64 v) := C05casts.asI64_refines v h
+theorem C05_as_u64 (v : JV) (h : goodTop v = true) : Fn.asU64 (encodeSpec v) = .ok (Spec.asU64 v) := C05casts.asU64_refines v h
+theorem C05_to_bool (v : JV) (h : goodTop v = true) : Fn.toBool (encodeSpec v) = Spec.toBool v := C05casts.toBool_refines v h
+theorem C05_to_i64 (v : JV) (h : goodTop v = true) : Fn.toI64 (encodeSpec v) = Spec.toI64 v := C05casts.toI64_refines v h
+theorem C05_to_u64 (v : JV) (h : goodTop v = true) : Fn.toU64 (encodeSpec v) = Spec.toU64 v := C05casts.toU64_refines v h
+/-- the whole public functions (sniffing included) on JSONB input; `topCount v < 2^24` is known finding D21 -/
+theorem C05_as_f64 (v : JV) (h : goodTop v = true) (hs : topCount v < 16777216) :
+    T.asF64 (encodeSpec v) = .ok (Spec.asF64 v) := C05casts.T_asF64_refines v h hs
+theorem C05_to_f64 (v : JV) (h : goodTop v = true) (hs : topCount v < 16777216) :
+    T.toF64 (encodeSpec v) = Spec.toF64 v := C05casts.T_toF64_refines v h hs
+theorem C05_to_str (v : JV) (h : goodTop v = true) (hs : topCount v < 16777216) (fmt : Nat → Bytes) :
+    T.toStr fmt (encodeSpec v) = Spec.toStr fmt v := C05casts.T_toStr_refines v h hs fmt
+theorem C05_is_kinds (v : JV) (h : goodTop v = true) (hs : topCount v < 16777216) :
+    T.isNull (encodeSpec v) = .ok (Spec.isNull v) ∧ T.isBoolean (encodeSpec v) = .ok (Spec.isBoolean v) ∧
+    T.isNumber (encodeSpec v) = .ok (Spec.isNumber v) ∧ T.isString (encodeSpec v) = .ok (Spec.isString v) ∧
+    T.isI64 (encodeSpec v) = .ok (Spec.isI64 v) ∧ T.isU64 (encodeSpec v) = .ok (Spec.isU64 v) ∧
+    T.isF64 (encodeSpec v) = .ok (Spec.isF64 v) :=
+  ⟨C05casts.T_isNull_refines v h hs, C05casts.T_isBoolean_refines v h hs, C05casts.T_isNumber_refines v h hs,
+   C05casts.T_isString_refines v h hs, C05casts.T_isI64_refines v h hs, C05casts.T_isU64_refines v h hs,
+   C05casts.T_isF64_refines v h hs⟩
+/-- the integer views are exact or absent -/
+theorem C05_as_i64_exact (v : JV) (i : Int) (hv : Spec.asI64 v = some i) :
+    ∃ n, v = num n ∧ (n = .int i ∨ ∃ u, n = .uint u ∧ (u : Int) = i) := C05casts.asI64_exact v i hv
+theorem C05_as_u64_exact (v : JV) (u : Nat) (hv : Spec.asU64 v = some u) :
+    ∃ n, v = num n ∧ (n = .uint u ∨ ∃ j, n = .int j ∧ j = (u : Int)) := C05casts.asU64_exact v u hv
 
 example : Fn.getByIndex (encodeSpec (arr [arr [], str [0x61], num (.uint 300)])) 2
     = .ok (some (encodeSpec (num (.uint 300)))) := by decide
